@@ -1,10 +1,12 @@
-//! Engine `namesim` (part of C20): volume and hand-over schedules with REAL threads.
+//! Engine `namesim` (part of C20): volume, thread lifetimes and hand-over schedules with REAL threads.
 //!
 //! shuttle runs its threads as coroutines on one OS thread, so state kept in a `std::thread_local!`
-//! or anything that depends on how many calls one OS thread makes is invisible to it. This engine
-//! closes that gap without giving up determinism: real threads are started, but a token decides
-//! which one runs; exactly one thread is runnable at any time, so the interleaving is the one the
-//! scenario prescribes (thread t takes `turn` calls, then hands the token on).
+//! (and its destructor at thread exit), or anything that depends on how many calls one OS thread
+//! makes, is invisible to it. This engine closes that gap without giving up determinism: the
+//! scenario is an explicit schedule of steps "thread t makes k calls"; the harness thread is the
+//! scheduler. A thread is spawned at its first step, runs only while the harness waits for it, and
+//! is joined right after its last step - so its thread-local destructors have run before the next
+//! step starts. Exactly one thread is runnable at any time; the run replays exactly.
 
 use serde::{Deserialize, Serialize};
 use std::collections::BTreeSet;
@@ -15,108 +17,132 @@ use crate::rng::Rng;
 
 #[derive(Clone, Debug, Serialize, Deserialize)]
 pub struct NameVolume {
-    /// Calls per thread.
-    pub calls: Vec<usize>,
+    /// Name part per thread; the number of threads is `parts.len()`.
     pub parts: Vec<String>,
-    /// Calls a thread makes before it hands the token to the next thread (0 = run to completion).
-    pub turn: usize,
+    /// Steps (thread, calls). A thread starts at its first step and exits after its last one.
+    pub schedule: Vec<(usize, usize)>,
+}
+
+enum Cmd {
+    Go(usize),
+    Exit,
 }
 
 impl NameVolume {
     pub fn generate(rng: &mut Rng, big: bool) -> NameVolume {
-        let threads = rng.range_usize(2, 5);
+        let threads = rng.range_usize(2, 6);
         const PARTS: [&str; 9] = ["", "_", "a", "tmp_0_0", "7", "x_1", "index.gbz", "v1.2", "."];
         let same = rng.chance(1, 2);
         let first = rng.pick(&PARTS).to_string();
-        let mut calls = Vec::new();
-        let mut parts = Vec::new();
+        let parts: Vec<String> = (0..threads).map(|_| if same { first.clone() } else { rng.pick(&PARTS).to_string() }).collect();
+        // Per thread: a quota and a chunk size; chunks are then interleaved in a random order that
+        // keeps each thread's own chunks in order. Some threads start late, some finish early.
+        let mut chunks: Vec<Vec<usize>> = Vec::new();
         for _ in 0..threads {
-            calls.push(match rng.below(8) { 0 => 1, 1 => rng.range_usize(2, 300), 2 | 3 => rng.range_usize(300, 5000), 4 => 65_535, 5 => 65_537, 6 => 70_000, _ => if big { rng.range_usize(100_000, 300_000) } else { rng.range_usize(60_000, 80_000) } });
-            parts.push(if same { first.clone() } else { rng.pick(&PARTS).to_string() });
+            let quota = match rng.below(9) { 0 => 1, 1 | 2 => rng.range_usize(2, 40), 3 => rng.range_usize(17, 100), 4 => rng.range_usize(300, 5000), 5 => 65_535, 6 => 65_537, 7 => 70_000, _ => if big { rng.range_usize(100_000, 300_000) } else { rng.range_usize(60_000, 80_000) } };
+            let chunk = match rng.below(6) { 0 => quota, 1 => 1, 2 => rng.range_usize(1, 40), 3 => 16, 4 => 33, _ => rng.range_usize(1, quota.max(1)) }.max(1);
+            let mut v = Vec::new();
+            let mut left = quota;
+            while left > 0 && v.len() < 12 { let k = chunk.min(left); v.push(k); left -= k; }
+            if left > 0 { v.push(left); }
+            chunks.push(v);
         }
-        let turn = match rng.below(5) { 0 | 1 => 0, 2 => 1, 3 => rng.range_usize(2, 1000), _ => 65_536 };
-        NameVolume { calls, parts, turn }
+        let mut cursor = vec![0usize; threads];
+        let mut schedule = Vec::new();
+        loop {
+            let open: Vec<usize> = (0..threads).filter(|t| cursor[*t] < chunks[*t].len()).collect();
+            if open.is_empty() { break; }
+            let t = *rng.pick(&open);
+            schedule.push((t, chunks[t][cursor[t]]));
+            cursor[t] += 1;
+        }
+        NameVolume { parts, schedule }
     }
 
     pub fn run(&self, prop: &str) -> Outcome {
         let mut out = Outcome::default();
         out.stats.evaluations = 1;
-        let n = self.calls.len();
-        // Token ring: thread t waits for the token, makes up to `turn` calls, passes the token to the next unfinished thread.
-        let mut senders: Vec<mpsc::Sender<()>> = Vec::new();
-        let mut receivers: Vec<Option<mpsc::Receiver<()>>> = Vec::new();
-        for _ in 0..n { let (s, r) = mpsc::channel(); senders.push(s); receivers.push(Some(r)); }
-        let (done_tx, done_rx) = mpsc::channel::<(usize, Vec<String>)>();
-        let remaining = std::sync::Arc::new(std::sync::Mutex::new(self.calls.clone()));
-        let mut handles = Vec::new();
-        for t in 0..n {
-            let rx = receivers[t].take().unwrap();
-            let senders = senders.clone();
-            let done_tx = done_tx.clone();
-            let remaining = remaining.clone();
-            let part = self.parts[t].clone();
-            let turn = self.turn;
-            handles.push(std::thread::spawn(move || {
-                let mut mine: Vec<String> = Vec::new();
-                loop {
-                    if rx.recv().is_err() { break; }
-                    let todo = { let r = remaining.lock().unwrap(); r[t] };
-                    let k = if turn == 0 { todo } else { todo.min(turn) };
-                    for _ in 0..k { mine.push(simple_sds::serialize::temp_file_name(&part).to_string_lossy().into_owned()); }
-                    let next = {
-                        let mut r = remaining.lock().unwrap();
-                        r[t] -= k;
-                        (1..=n).map(|d| (t + d) % n).find(|u| r[*u] > 0)
-                    };
-                    let finished = { remaining.lock().unwrap()[t] == 0 };
-                    match next { Some(u) => { let _ = senders[u].send(()); }, None => {} }
-                    if finished { break; }
+        let n = self.parts.len();
+        let last_step: Vec<Option<usize>> = (0..n).map(|t| self.schedule.iter().rposition(|(u, _)| *u == t)).collect();
+        let mut workers: Vec<Option<(mpsc::Sender<Cmd>, mpsc::Receiver<Vec<String>>, std::thread::JoinHandle<()>)>> = (0..n).map(|_| None).collect();
+        let mut all: Vec<(usize, String)> = Vec::new();
+        let mut alive_max = 0usize;
+        let mut late_start = false;
+        let mut exit_while_others_alive = false;
+        for (i, (t, k)) in self.schedule.iter().enumerate() {
+            if *t >= n { return out.fail(Violation::new(prop, "harness", "namesim", "bad thread index".into())); }
+            if workers[*t].is_none() {
+                if i > 0 && workers.iter().any(|w| w.is_some()) { late_start = true; }
+                let (cmd_tx, cmd_rx) = mpsc::channel::<Cmd>();
+                let (res_tx, res_rx) = mpsc::channel::<Vec<String>>();
+                let part = self.parts[*t].clone();
+                let h = std::thread::spawn(move || {
+                    while let Ok(cmd) = cmd_rx.recv() {
+                        match cmd {
+                            Cmd::Go(k) => {
+                                let mut names = Vec::with_capacity(k);
+                                for _ in 0..k { names.push(simple_sds::serialize::temp_file_name(&part).to_string_lossy().into_owned()); }
+                                if res_tx.send(names).is_err() { break; }
+                            },
+                            Cmd::Exit => break,
+                        }
+                    }
+                });
+                workers[*t] = Some((cmd_tx, res_rx, h));
+            }
+            alive_max = alive_max.max(workers.iter().filter(|w| w.is_some()).count());
+            let done = {
+                let w = workers[*t].as_ref().unwrap();
+                if w.0.send(Cmd::Go(*k)).is_err() { None } else { w.1.recv().ok() }
+            };
+            match done {
+                Some(names) => { for name in names { all.push((*t, name)); } },
+                None => {
+                    return out.fail(Violation::new(prop, "name-panic", "temp_file_name", format!("the thread of step {} (thread {}, {} calls) died", i, t, k)));
+                },
+            }
+            if last_step[*t] == Some(i) {
+                // Last step of this thread: let it exit and wait until it is gone (thread-local destructors included).
+                let (tx, _rx, h) = workers[*t].take().unwrap();
+                let _ = tx.send(Cmd::Exit);
+                if catch(|| h.join()).map(|r| r.is_err()).unwrap_or(true) {
+                    return out.fail(Violation::new(prop, "name-panic", "temp_file_name", format!("thread {} panicked while exiting", t)));
                 }
-                let _ = done_tx.send((t, mine));
-                // Keep the thread's receiver alive until everyone is done is not needed: senders ignore errors.
-            }));
-        }
-        drop(done_tx);
-        let first = (0..n).find(|t| self.calls[*t] > 0);
-        if let Some(t) = first { let _ = senders[t].send(()); }
-        let mut all: Vec<(usize, Vec<String>)> = Vec::new();
-        let joined = catch(|| { for h in handles { let _ = h.join(); } });
-        while let Ok(x) = done_rx.try_recv() { all.push(x); }
-        if joined.is_err() || all.len() != n {
-            return out.fail(Violation::new(prop, "name-panic", "temp_file_name", format!("a calling thread panicked ({} of {} threads reported)", all.len(), n)));
-        }
-        let mut seen: BTreeSet<&str> = BTreeSet::new();
-        let mut total = 0u64;
-        for (t, names) in all.iter() {
-            if names.len() != self.calls[*t] { return out.fail(Violation::new(prop, "harness", "namesim", format!("thread {} made {} calls, expected {}", t, names.len(), self.calls[*t]))); }
-            for name in names.iter() {
-                total += 1;
-                let file = std::path::Path::new(name).file_name().map(|f| f.to_string_lossy().into_owned()).unwrap_or_default();
-                if !file.contains(self.parts[*t].as_str()) {
-                    return out.fail(Violation::new(prop, "name-part", "temp_file_name", format!("{:?} does not contain the caller's name part {:?}", name, self.parts[*t])));
-                }
-                if !seen.insert(name.as_str()) {
-                    return out.fail(Violation::new(prop, "duplicate-volume", "temp_file_name", format!("the path {:?} was returned twice ({} threads, calls per thread {:?}, hand-over every {} calls)", name, n, self.calls, self.turn)));
-                }
+                if workers.iter().any(|w| w.is_some()) { exit_while_others_alive = true; }
             }
         }
-        out.stats.steps = total;
-        out.stats.sigs.insert(crate::rng::fnv(format!("{:?}|{}", self.calls.iter().map(|c| if *c > 65_536 { 3 } else if *c > 4096 { 2 } else if *c > 1 { 1 } else { 0 }).collect::<Vec<_>>(), match self.turn { 0 => 0, 1 => 1, x if x < 65_536 => 2, _ => 3 }).as_bytes()));
-        out.stats.fault("T2-prescribed hand-over between real threads", if self.turn == 0 { n as u64 - 1 } else { (total / self.turn.max(1) as u64).max(1) });
-        out.stats.probe_if(self.calls.iter().any(|c| *c > 65_536), "a thread with more than 65536 calls");
-        out.stats.probe_if(self.turn == 1, "strict alternation between real threads");
-        out.stats.probe_if(self.turn == 0, "threads run to completion one after another");
+        let mut seen: BTreeSet<&str> = BTreeSet::new();
+        for (t, name) in all.iter() {
+            let file = std::path::Path::new(name).file_name().map(|f| f.to_string_lossy().into_owned()).unwrap_or_default();
+            if !file.contains(self.parts[*t].as_str()) {
+                return out.fail(Violation::new(prop, "name-part", "temp_file_name", format!("{:?} does not contain the caller's name part {:?}", name, self.parts[*t])));
+            }
+            if !seen.insert(name.as_str()) {
+                return out.fail(Violation::new(prop, "duplicate-volume", "temp_file_name", format!("the path {:?} was returned twice ({} threads, schedule of {} steps)", name, n, self.schedule.len())));
+            }
+        }
+        out.stats.steps = all.len() as u64;
+        let quota = |t: usize| -> usize { self.schedule.iter().filter(|(u, _)| *u == t).map(|(_, k)| *k).sum() };
+        let classes: Vec<u8> = (0..n).map(|t| { let c = quota(t); if c > 65_536 { 3 } else if c > 4096 { 2 } else if c > 16 { 1 } else { 0 } }).collect();
+        out.stats.sigs.insert(crate::rng::fnv(format!("{:?}|{}|{}|{}", classes, self.schedule.len().min(20), late_start, exit_while_others_alive).as_bytes()));
+        out.stats.fault("T2-prescribed hand-over between real threads", self.schedule.len() as u64);
+        out.stats.probe_if((0..n).any(|t| quota(t) > 65_536), "a thread with more than 65536 calls");
+        out.stats.probe_if(late_start, "a thread started while others were already running");
+        out.stats.probe_if(exit_while_others_alive, "a thread exited while others were still alive");
+        out.stats.probe_if(alive_max >= 3, "three or more threads alive at once");
         out
     }
 
     pub fn simpler(&self) -> Vec<NameVolume> {
         let mut out = Vec::new();
-        if self.calls.len() > 2 { for i in 0..self.calls.len() { let mut s = self.clone(); s.calls.remove(i); s.parts.remove(i); out.push(s); } }
-        for i in 0..self.calls.len() {
-            let c = self.calls[i];
-            for smaller in [1usize, c / 2, c.saturating_sub(1)] { if smaller < c && smaller > 0 { let mut s = self.clone(); s.calls[i] = smaller; out.push(s); } }
+        for i in 0..self.schedule.len() { if self.schedule.len() > 1 { let mut s = self.clone(); s.schedule.remove(i); out.push(s); } }
+        for i in 0..self.schedule.len() {
+            let k = self.schedule[i].1;
+            for smaller in [1usize, k / 2, k.saturating_sub(1)] { if smaller < k && smaller > 0 { let mut s = self.clone(); s.schedule[i].1 = smaller; out.push(s); } }
         }
-        if self.turn != 0 { let mut s = self.clone(); s.turn = 0; out.push(s); }
+        // Merge two threads into one (fewer actors).
+        let n = self.parts.len();
+        if n > 2 { for t in 1..n { let mut s = self.clone(); for step in s.schedule.iter_mut() { if step.0 == t { step.0 = 0; } else if step.0 > t { step.0 -= 1; } } s.parts.remove(t); out.push(s); } }
         for i in 0..self.parts.len() { if self.parts[i] != "a" { let mut s = self.clone(); s.parts[i] = "a".into(); out.push(s); } }
         out
     }
